@@ -464,8 +464,8 @@ Section PARAM.
         if pd_required p && negb found then VMissing
         else if is_nil_val v then (if negb (pd_allow_empty p) && found then VEmpty else VOk)
         else
-          (* an int32 value never equals a float64 enum member, at any level *)
-          if int32_conflict (pd_schema p) v then VSchema else
+          (* (an int32 value used never to equal a float64 enum member: repaired in /repo, the decoded int32 is
+             compared by value like an int64) *)
           match v with
           | _ =>
               match visit rc rm fo (mkSt false multi false false false false (has_int v)) (pd_schema p) (sort_obj (json_of v)) with
